@@ -262,6 +262,8 @@ def _mk_pipeline(family):
         names = ['m', 'other'] + NEAR_MISS + (['{urn:other}m'] if family in ('soap11', 'xml', 'json', 'yaml', 'msgpack') else [])
         if family in ('json', 'yaml', 'msgpack'):
             names += ['{%s}m' % TNS + 'x', '{}m', '}m', '{urn:other}other']
+        if family == 'soap11':
+            names += ['__other_quoted_in_a_header__', '__unregistered_body_other_in_header__']
         name = c.choose(names, 'requested_name')
         h = Harness(c, family, user_outcomes=['return'])
         method, path, qs, body, ctype = requests_for(family)['valid'][:5]
@@ -276,6 +278,12 @@ def _mk_pipeline(family):
         elif family == 'msgpack':
             import msgpack
             body = msgpack.packb({name.encode('utf8'): {b'i': 5}})
+        elif family == 'soap11' and name.startswith('__'):
+            # a header block that quotes another message (with a soap Body of its own): only the envelope's own Body
+            # names the method
+            real = '<tns:m><tns:i>5</tns:i></tns:m>' if name == '__other_quoted_in_a_header__' else '<tns:Nope><tns:i>5</tns:i></tns:Nope>'
+            body = ('<e:Envelope xmlns:e="%s" xmlns:tns="%s"><e:Header><tns:Relayed><e:Body><tns:other><tns:i>7</tns:i></tns:other>'
+                    '</e:Body></tns:Relayed></e:Header><e:Body>%s</e:Body></e:Envelope>' % (SOAP11_NS, TNS, real)).encode()
         elif family in ('soap11', 'xml'):
             if name.startswith('{'):
                 tag = '<o:m xmlns:o="urn:other"><o:i>5</o:i></o:m>'
@@ -297,7 +305,7 @@ def _mk_pipeline(family):
         ran_m = sum(1 for t in c.trace if t[0] == 'user_fn')
         ran_other = sum(1 for t in c.trace if t[0] == 'user_fn_other')
         status = [t for t in c.trace if t[0] == 'start_response'][0][1]
-        if name == 'm':
+        if name in ('m', '__other_quoted_in_a_header__'):
             c.check('named_method_runs_once', ran_m == 1 and ran_other == 0, detail=(ran_m, ran_other))
         elif name == 'other':
             c.check('named_method_runs_once', ran_m == 0 and ran_other == 1, detail=(ran_m, ran_other))
@@ -454,3 +462,39 @@ def naming_dictdoc(c):
     if out.returned:
         from pyvc.text import text_eq
         c.check('key_taken_whole_under_the_target_namespace', text_eq(out.value, '{%s}' % TNS + key), detail=repr(out.value))
+
+
+@obligation('C11.table.same_named_services', targets=['spyne.application:Application.check_unique_method_keys',
+                                                       'spyne.interface._base:Interface.process_method'],
+            bounded="two distinct service classes produced by one factory (same module and class name) x wrapped / bare "
+                    "methods sharing their message types x both listing orders",
+            desc="two different services that expose a method of the same name are rejected when the application is "
+                 "constructed even when the classes themselves carry the same module and class name")
+def same_named_services(c):
+    from spyne.model.complex import ComplexModel
+
+    class Msg(ComplexModel):
+        __namespace__ = TNS
+        v = Integer
+    style = c.choose(['bare', 'wrapped'], 'body_style')
+    ran = []
+
+    def factory(tag):
+        class Maker(ServiceBase):
+            if style == 'bare':
+                @rpc(Msg, _returns=Msg, _body_style='bare')
+                def act(ctx, m):
+                    ran.append(tag)
+                    return m
+            else:
+                @rpc(Integer, _returns=Integer)
+                def act(ctx, i):
+                    ran.append(tag)
+                    return i
+        return Maker
+    A, B = factory('a'), factory('b')
+    how = c.choose(['a_then_b', 'b_then_a'], 'services')
+    svcs = {'a_then_b': [A, B], 'b_then_a': [B, A]}[how]
+    out = c.run(Application, svcs, TNS, in_protocol=ProtocolBase(), out_protocol=ProtocolBase())
+    c.check('conflict_rejected_at_construction', out.raised and not isinstance(out.exc, (TypeError, AttributeError)),
+            detail=repr(out))
